@@ -9,20 +9,246 @@ package rig
 
 import (
 	"encoding/json"
+	"fmt"
+	"sort"
 
 	"verifsim/internal/api"
 	"verifsim/internal/findings"
+	"verifsim/internal/rng"
 )
 
 // Runs is the number of rig run indices of a tier.
-func Runs(tier string) int { return 0 }
+func Runs(tier string) int {
+	if tier == "thorough" {
+		return 12000
+	}
+	return 2400
+}
+
+const (
+	maxEvalsPerIndex      = 3000 // thorough: bound on the enumerated cancellation points of one schedule
+	quickOffsetsPerReq    = 8
+	maxViolationsPerIndex = 6
+	maxMinimisedPerClass  = 2
+	maxTaggedPerFinding   = 2
+)
+
+// package-level (per worker process) rate limits
+var (
+	minimisedPerClass = map[string]int{}
+	taggedPerFinding  = map[string]int{}
+)
+
+// offsetsFor lists the cancellation offsets to evaluate for one request whose
+// baseline lifetime is t.steps steps.
+func offsetsFor(t reqTrace, tier string, r *rng.R, limit int) []int {
+	life := t.steps
+	if life <= 0 {
+		return nil
+	}
+	set := map[int]bool{}
+	add := func(o int) {
+		if o >= 0 && o < life {
+			set[o] = true
+		}
+	}
+	if tier == "thorough" && life <= limit {
+		for o := 0; o < life; o++ {
+			add(o)
+		}
+	} else {
+		add(0)
+		add(1)
+		add(life - 1)
+		add(t.busyAt)     // the cycle right after the line lock was acquired
+		add(t.busyAt + 1) //
+		add(t.cmdAt)      // right after a directory command went out
+		add(t.residentAt) // right after the line arrived in L1
+		add(t.residentAt + 1)
+		add(life - 2)
+		n := quickOffsetsPerReq
+		if tier == "thorough" {
+			n = limit
+		}
+		for tries := 0; len(set) < n && len(set) < life && tries < 8*n; tries++ {
+			add(r.Intn(life))
+		}
+	}
+	out := make([]int, 0, len(set))
+	for o := range set {
+		out = append(out, o)
+	}
+	sort.Ints(out)
+	return out
+}
+
+type sample struct {
+	Variant  string    `json:"variant"`
+	Cores    int       `json:"cores"`
+	Prefill  int       `json:"prefill_requests"`
+	Requests []Request `json:"requests"`
+	Lifetime []int     `json:"baseline_lifetime_cycles"`
+	Cancel   string    `json:"cancellations_evaluated"`
+}
 
 // RunIndex executes rig run idx (0-based within the rig part) and records
 // evaluations, counters, distinct states, samples and violations into res.
-func RunIndex(seed uint64, idx int, tier string, res *api.Result, kf *findings.Set) {}
+func RunIndex(seed uint64, idx int, tier string, res *api.Result, kf *findings.Set) {
+	sc := generate(seed, idx)
+	r := rng.New(rng.Derive(seed, uint64(idx), 0xca9ce1))
+	emitted := 0
+	report := func(s *Scenario, out *outcome, base *outcome) {
+		if out.class == "" {
+			return
+		}
+		res.Count("rig:failed:"+out.class+"@"+sc.Variant, 1)
+		if s.Cancel == nil {
+			res.Count("rig:failed-without-cancellation", 1)
+		} else {
+			res.Count("rig:failed-with-cancellation", 1)
+		}
+		if id := knownFinding(s, out, base); id != "" && kf != nil && kf.IsOpen("C06", id) {
+			res.Count("rig:known:"+id, 1)
+			res.Count("rig:known:"+id+":"+out.class, 1)
+			if taggedPerFinding[id] < maxTaggedPerFinding {
+				taggedPerFinding[id]++
+				res.Violations = append(res.Violations, api.Violation{Property: "C06", Class: out.class + "@rig-" + sc.Variant,
+					Detail: out.detail, RunIndex: idx, Seed: seed, KnownFinding: id})
+			}
+			return
+		}
+		if emitted >= maxViolationsPerIndex {
+			res.Count("rig:violations-not-emitted", 1)
+			return
+		}
+		emitted++
+		min, mout := s, out
+		if minimisedPerClass[out.class] < maxMinimisedPerClass {
+			minimisedPerClass[out.class]++
+			min, mout = shrink(s, out)
+		}
+		res.Violations = append(res.Violations, api.Violation{Property: "C06", Class: out.class + "@rig-" + sc.Variant,
+			Detail: mout.detail, RunIndex: idx, Seed: seed, Replay: min.payload()})
+	}
+
+	// 1. the schedule without cancellation (fully checked): lifetimes
+	base := evaluate(sc, evalOpt{res: res, keepHash: true})
+	res.Evaluations++
+	res.SimCycles += int64(base.cycles)
+	res.Count("rig:evaluations-without-cancellation", 1)
+	res.Count("rig:requests", int64(len(sc.Requests)))
+	if base.inconclusive {
+		res.Inconclusive++
+	}
+	if base.class != "" {
+		report(sc, base, nil)
+		return
+	}
+
+	// 2. the cancellation points
+	type point struct{ req, off int }
+	var pts []point
+	perReq := maxEvalsPerIndex / len(sc.Requests)
+	for i, t := range base.main {
+		for _, o := range offsetsFor(t, tier, r, perReq) {
+			pts = append(pts, point{i, o})
+		}
+	}
+	for _, p := range pts {
+		s := sc.clone()
+		s.Cancel = &Cancellation{Req: p.req, Offset: p.off}
+		out := evaluate(s, evalOpt{res: res, baseline: base})
+		if out.prefixDiffer {
+			// the prefix did not repeat the baseline: check this evaluation from its first cycle
+			res.Count("rig:prefix-differs-from-baseline", 1)
+			out = evaluate(s, evalOpt{res: res})
+		}
+		res.Evaluations++
+		res.SimCycles += int64(out.cycles)
+		res.Count("rig:evaluations-with-cancellation", 1)
+		if out.inconclusive {
+			res.Inconclusive++
+		}
+		countCancel(res, out)
+		report(s, out, base)
+	}
+	lt := make([]int, len(base.main))
+	for i, t := range base.main {
+		lt[i] = t.steps
+	}
+	res.AddSample(sample{Variant: sc.Variant, Cores: sc.Cores, Prefill: len(sc.Prefill), Requests: sc.Requests, Lifetime: lt,
+		Cancel: fmt.Sprintf("%d (request, offset) points", len(pts))}, 3)
+}
+
+// countCancel records which kind of cancellation actually fired.
+func countCancel(res *api.Result, out *outcome) {
+	cf := out.cf
+	if !cf.fired {
+		res.Count("fired:cancel-never-reached", 1)
+		return
+	}
+	res.Count("fired:cancel", 1)
+	switch {
+	case cf.steps == 0:
+		res.Count("fired:cancel-before-first-step", 1)
+	case !cf.busy:
+		res.Count("fired:cancel-waiting-for-lock", 1)
+	default:
+		if cf.semRead > 0 || cf.semWrite > 0 {
+			res.Count("fired:cancel-lock-held", 1)
+		}
+		if cf.state == stateInv {
+			res.Count("fired:cancel-during-fetch", 1)
+			if cf.resident {
+				res.Count("fired:cancel-during-fetch-line-in-l1", 1)
+			}
+		} else {
+			res.Count("fired:cancel-during-l1-access", 1)
+		}
+		if cf.cmdOthers > 0 {
+			res.Count("fired:cancel-snoop-command-outstanding", 1)
+		}
+		if cf.cmdSelf > 0 || cf.overfull {
+			res.Count("fired:cancel-during-capacity-eviction", 1)
+		}
+	}
+}
 
 // Replay re-executes a rig payload (JSON object with "kind":"rig").
-func Replay(payload json.RawMessage) (*api.Violation, error) { return nil, nil }
+func Replay(payload json.RawMessage) (*api.Violation, error) {
+	var sc Scenario
+	if err := json.Unmarshal(payload, &sc); err != nil {
+		return nil, err
+	}
+	if err := sc.validate(); err != nil {
+		return nil, err
+	}
+	if _, ok := factories[sc.Variant]; !ok {
+		return nil, fmt.Errorf("unknown rig variant %q", sc.Variant)
+	}
+	out := evaluate(&sc, evalOpt{})
+	if out.class == "" {
+		return nil, nil
+	}
+	return &api.Violation{Property: "C06", Class: out.class + "@rig-" + sc.Variant, Detail: out.detail, Replay: payload}, nil
+}
 
 // Describe returns the rule text, fault kinds and assumptions of the rig part.
-func Describe() (rule string, faults, assumptions []string) { return "", nil, nil }
+func Describe() (rule string, faults, assumptions []string) {
+	rule = "one evaluation = one request schedule (up to 12 reads/writes of a byte/half/word from 2-3 cores on 1-3 lines, seeded issue cycles, optional L1/L3 prefill) on the real controllers of MVP-7.0, 7.1 or 8, either without cancellation or with ONE cancellation at one (request, cycle offset) point; per run index the schedule is first run without cancellation, then once per enumerated point (thorough: every offset of every request's lifetime up to 3000 points; quick: ~8 per request incl. first, second, last step and the steps right after the lock / the directory command / the line arrival). Checked: I1..I5 after every cycle (coh.Check), no controller panic, completion within 20*309*(requests+20) cycles, linearizability of the history (porcupine, one register per aligned word), final memory after the end-of-run write-back. distinct = distinct global coherence vectors (coh.Vector) sampled every checked cycle"
+	faults = []string{
+		"request cancellation (cc.flush) at an enumerated cycle offset: before the first step, while waiting for the lock, with the lock held, during the fetch, during the L1 access, with snoop commands outstanding, during a capacity eviction",
+		"snoop evict / snoop write-back served by another core",
+		"capacity eviction (L1 prefilled with 16 lines; mvp8: L3 prefilled with 32 lines)",
+	}
+	assumptions = []string{
+		"rig: interleavings are SAMPLED by seed (which core issues what, when); only the cancellation point is enumerated. Exhaustive interleaving enumeration would be model checking and is out of scope",
+		"rig: a core has at most one request in flight and re-submits the same addresses every cycle until done, as an execute unit does; a cancellation replaces the request's step of that cycle by cc.flush() (after that cycle's snoop phase), the request is dropped and the core goes on with its next request in the following cycle; at most one cancellation per evaluation",
+		"rig: a cancelled request is a squashed wrong-path access. By the code (coWriteToL1 stores the data and completes in the same step) a cancelled write can never have stored anything, so the final-memory check treats it as absent; the linearizability check is deliberately weaker and accepts a cancelled write as a pending operation that may or may not have taken effect; a cancelled read is absent",
+		"rig: the per-cycle checks of a cancellation evaluation start one cycle before the cancellation; the cycles before repeat the fully checked no-cancellation run of the same schedule (the state hash at the first checked cycle is compared with that run's; on a mismatch the evaluation is repeated fully checked)",
+		"rig: coh.Check is re-evaluated only in cycles where the coherence vector, the set of resident L1/L3 lines or a request's status changed (data bytes change only in such cycles: a store and its completion, a write-back and its command's completion happen in one step); after 2000 cycles without any such change snapshots are taken every 64th cycle until something changes",
+		"rig: linearizability is checked per aligned 4-byte word (porcupine partitions), timestamps are cycle*2*cores + 2*core (+1 for the return), i.e. the order in which CPU.Run steps the cores within a cycle; a porcupine timeout counts as inconclusive, never as a violation",
+		"rig: map iteration order inside the controllers is the canonical order of the build overlay (identity schedule)",
+	}
+	return
+}
